@@ -132,6 +132,7 @@ def check_project_spec(ctx, spec):
     # the other ways of writing / reading the same file
     iovariants.writers_agree(p, data, "C01")
     iovariants.loaders_agree(data, s1, snapshot.snap_project, "C01", ".sunvox")
+    iovariants.clone_agrees(p, s1, snapshot.snap_project, "C01")
     # second stage on the same in-memory project: it has been saved already; more API calls follow
     # (more modules, links, patterns, field assignments, edits of existing modules) and the project
     # must still save exactly what it holds
